@@ -23,6 +23,7 @@ func runC03(c *Ctx, r *Report) {
 	c03Dial(c, r, "C03.R5", false)
 	c01R5(c, r, "C03.R6")
 	c01R3(c, r, "C03.R7")
+	c09R7(c, r, "C03.R9") // UDP downstream: a datagram that exactly fills the read buffer must not produce a spurious end of stream
 	c01R4(c, r, "C03.R8") // what was prefetched for matching is what the relay later replays: prefetch appends exactly what it read
 }
 
